@@ -259,7 +259,23 @@ class Execution:
             p2c_r, p2c_w = os.pipe()
             dump = tempfile.NamedTemporaryFile(prefix="dwdump", suffix=".txt", dir=opts.get("tmpdir", "/dev/shm"), delete=False)
             dump.close()
-            pid = os.fork()
+            if opts.get("exec_child") and not callable(event):
+                # a cold start in a NEW interpreter (its own hash seed, import state and module objects), not a fork of this process
+                import pickle
+                import subprocess
+                import sys
+
+                job = tempfile.NamedTemporaryFile(prefix="dwjob", suffix=".pkl", dir=opts.get("tmpdir", "/dev/shm"), delete=False)
+                pickle.dump({"sc": sc, "event": event, "clock": (self.clock.k, self.clock.m0, self.clock.v0, self.clock.jump), "inv": self.inv,
+                             "dump": dump.name, "wfd": c2p_w, "rfd": p2c_r}, job)
+                job.close()
+                env = dict(os.environ, PYTHONHASHSEED=str(opts.get("hash_seed_base", 100) + self.inv))
+                proc = subprocess.Popen([sys.executable, "-m", "dw.child_exec", job.name], pass_fds=(c2p_w, p2c_r), env=env,
+                                        cwd=os.path.dirname(os.path.dirname(os.path.abspath(__file__))))
+                pid = proc.pid
+                self._procs = getattr(self, "_procs", []) + [proc]
+            else:
+                pid = os.fork()
             if pid == 0:
                 try:
                     os.close(c2p_r)
@@ -549,6 +565,9 @@ class Execution:
                 exit_status = st
             except ChildProcessError:
                 pass
+            for pr in getattr(self, "_procs", []):
+                if pr.pid == pid and pr.returncode is None:
+                    pr.returncode = exit_status if exit_status is not None else 0  # reaped above; keep Popen from waiting again
             os.close(c2p_r)
             os.close(p2c_w)
             try:
